@@ -169,6 +169,18 @@ class Ctx:
 
     def drv_ok(self, family, args=(), **kw):
         res = self.drv(family, args, **kw)
+        res["partial"] = False
+        if res["rc"] == 4 and os.path.exists(res["trace"]) and os.path.getsize(res["trace"]) > 0:
+            # the driver ran out of time; what it recorded is still a behaviour of the
+            # real code: it is validated, and only if it is accepted the check is broken
+            lines = open(res["trace"]).read().split("\n")
+            if lines and not lines[-1].endswith("}"):
+                lines = lines[:-1]
+            open(res["trace"], "w").write("\n".join(l for l in lines if l) + "\n")
+            res["partial"] = True
+            self.partial = "driver %s ran out of time (partial trace validated)" % family
+            self.step("drv", family=family, args=list(args), wall_s=res["wall_s"], partial=True)
+            return res
         if res["rc"] != 0:
             raise Broken("driver %s exited %d:\n%s" % (family, res["rc"], res["stderr"][-3000:]))
         s = res["summary"]
@@ -304,6 +316,9 @@ class Ctx:
             print("KNOWN-FINDING: property=%s %s" % (self.pid, k))
         if broken:
             log("BROKEN check %s: %s" % (self.pid, broken))
+            return 2
+        if getattr(self, "partial", None) and not self.violations:
+            log("BROKEN check %s: %s" % (self.pid, self.partial))
             return 2
         if self.violations:
             for what, rp in self.violations:
